@@ -51,10 +51,10 @@ impl<'c> Coils<'c> {
     /// Get a specific coil.
     #[must_use]
     pub const fn get(&self, idx: usize) -> Option<Coil> {
-        if idx + 1 > self.quantity {
+        if idx >= self.quantity {
             return None;
         }
-        Some((self.data[(idx as u16 / 8u16) as usize] >> (idx % 8)) & 0b1 > 0)
+        Some((self.data[idx / 8] >> (idx % 8)) & 0b1 > 0)
     }
 }
 
